@@ -44,7 +44,7 @@ func Shrink(tape []uint32, class string, run Oracle, maxExec int, maxDur time.Du
 				} else {
 					i += w
 				}
-				if execs >= maxExec {
+				if execs >= maxExec || time.Now().After(deadline) {
 					return cur, execs
 				}
 			}
@@ -69,7 +69,7 @@ func Shrink(tape []uint32, class string, run Oracle, maxExec int, maxDur time.Du
 				if try(c) {
 					improved = true
 				}
-				if execs >= maxExec {
+				if execs >= maxExec || time.Now().After(deadline) {
 					return cur, execs
 				}
 			}
@@ -99,7 +99,7 @@ func Shrink(tape []uint32, class string, run Oracle, maxExec int, maxDur time.Du
 				} else {
 					lo = mid + 1
 				}
-				if execs >= maxExec {
+				if execs >= maxExec || time.Now().After(deadline) {
 					return cur, execs
 				}
 			}
